@@ -211,6 +211,66 @@ def _release(ctx, vip, rule, epm):
                    'owner with the caller (a non-owner can release it)')
 
 
+_REMOVERS = ('os.unlink', 'os.remove', 'fs.rm_safe', 'fs.rmtree_safe',
+             'shutil.rmtree', 'os.rename', 'os.replace', 'fs.replace')
+
+
+def _every_removal(ctx, vip, rule, epm):
+    """No other routine of the three managers removes an ownership link:
+    besides the owner-checked releases (C14.2) and the collectors of dangling
+    links (C14.3) only VipMgr.initialize does, and only for addresses of its
+    own network."""
+    nz = N.Normaliser()
+    known = {'free', 'unlink_rule', 'unlink_spec', 'unlink_all',
+             'garbage_collect'}
+    funcs = []
+    for cls in (vip, rule, epm):
+        funcs.extend(cls.live_methods())
+        funcs.extend(f for f in cls.module.live_functions()
+                     if f.cls is None)
+    seen = set()
+    for func in funcs:
+        if id(func) in seen:
+            continue
+        seen.add(id(func))
+        graph = None
+        for sub in K.walk_no_nested(func.node):
+            if not (isinstance(sub, ast.Call) and
+                    K.callee_text(sub) in _REMOVERS):
+                continue
+            if func.name in known:
+                continue
+            graph = graph or ctx.cfg(func)
+            site = [n for n, _c in K.nodes_calling(graph,
+                                                   lambda c: c is sub)]
+            if not site:
+                continue
+            ok = False
+            if func.cls in (rule, epm) and func.name == 'initialize':
+                # named: the rule / endpoint directory has one manager per
+                # node; node initialisation starts from an empty directory
+                ctx.ok('C14.2', func, site[0],
+                       'node initialisation empties the directory this '
+                       'manager alone owns',
+                       construct='removal in %s' % func.qualname)
+                continue
+            if func.cls is vip and func.name == 'initialize':
+                loop = K.enclosing_for(graph, site[0])
+                ok = K.guarded_by(graph, site[0], lambda e: any(
+                    a.key[0] == 'in' and a.key[3] and
+                    a.key[2] == 'self._cidr'
+                    for a in nz.facts_of_edge(e)), start=loop)
+            ctx.ob('C14.2', func, site[0], ok,
+                   'the start-up sweep removes only addresses of its own '
+                   'network (in self._cidr)' if ok else
+                   '%s removes an ownership link outside the owner-checked '
+                   'releases and the collectors of dangling links%s' % (
+                       func.qualname,
+                       ' (the sweep is not restricted to its own network)'
+                       if func.name == 'initialize' else ''),
+                   construct='removal in %s' % func.qualname)
+
+
 def _collect(ctx, vip, rule):
     index = ctx.index
     nz = N.Normaliser()
@@ -326,6 +386,18 @@ def _service(ctx):
         ctx.ob('C14.5', delete, node, ok,
                'the IP recorded for the request is freed with the same '
                'owner key (the request id)')
+        # the service forgets the request before it frees the address: a
+        # failure after the free must not leave a record that a repeated
+        # request would be answered from (the IP may be someone else's by
+        # then)
+        dropped = K.guarded_by(dgraph, node, lambda e: e.kind != 'exc' and any(
+            K.is_meth(c, 'pop') and K.recv_text(c) == 'self._devices' and
+            c.args and key_of(N.txt(c.args[0]), ddefs) == did
+            for c in C.node_calls(e.src)))
+        ctx.ob('C14.5', delete, node, dropped,
+               'the request is removed from the service state before its '
+               'IP is freed',
+               construct='state dropped before free')
 
 
 def _paths(ctx, vip, rule):
@@ -354,6 +426,7 @@ def check(ctx):
     vip, rule, epm = _managers(ctx)
     _create(ctx, vip, rule, epm)
     _release(ctx, vip, rule, epm)
+    _every_removal(ctx, vip, rule, epm)
     _collect(ctx, vip, rule)
     _in_network(ctx, vip)
     _service(ctx)
